@@ -116,6 +116,8 @@ class Run:
         self.bounds = {}
         self.outside = []
         self.crates = []
+        self.replay = None          # payload of a replay file (bin/check <id> --replay <path>)
+        self.replayed = False
 
     # -- bookkeeping ---------------------------------------------------------------------------
     def uses(self, *spans):
@@ -179,6 +181,28 @@ class Run:
         claim=str).  Runs all harnesses in parallel, then replays failures natively."""
         timeout = timeout or (150 if self.tier == "quick" else 900)
         self.crates.append(crate)
+        if self.replay is not None:
+            # replay mode: no solver; the recorded values are fed to the same harness, natively, on the current tree
+            for l in lemmas:
+                if l["id"] != self.replay.get("lemma", "").split("[")[0] or self.replay.get("engine") != "kani":
+                    continue
+                self.replayed = True
+                vals = self.replay["values"]
+                verdict, out = crate.native_replay(l["harness"], vals, release=False)
+                log("REPLAY lemma=%s native=%s" % (l["id"], verdict))
+                log(out[-800:])
+                if verdict == "reproduced":
+                    api = l["api"](vals, out) if l.get("api") else None
+                    if api is not None:
+                        log("REPLAY api_reproduced=%s %s" % (api[0], json.dumps(api[1], ensure_ascii=False)[:1200]))
+                    role = l["role"](vals, out) if l.get("role") else "any"
+                    self.queries += 1
+                    self.nontrivial += 1
+                    self.violated(l["id"], role, "replayed counterexample reproduces on the current tree", {"engine": "kani", "harness": l["harness"], "values": vals})
+                else:
+                    self.queries += 1
+                    self.holds(l["id"], note="(recorded counterexample does not reproduce on the current tree: %s)" % verdict)
+            return []
         jobs = [(crate, l["harness"], {"timeout": l.get("timeout", timeout)}) for l in lemmas]
         # listed known findings of a lemma need the lemma discharged again with their roles assumed away: start those
         # variants together with the base run (same verdict logic, only the wall time changes)
@@ -275,6 +299,19 @@ class Run:
         """Existential query: unsat => lemma holds.  sat => `witness(model)` must replay it against the real
         code and return (role, what, payload) or None when it does not reproduce.
         vacuity: a query (the domain without the negated lemma) that must be sat."""
+        if self.replay is not None:
+            if lid.split("[")[0] != self.replay.get("lemma", "").split("[")[0] or "model" not in self.replay or witness is None:
+                return None
+            self.replayed = True
+            w = witness(self.replay["model"])
+            self.queries += 1
+            log("REPLAY lemma=%s model=%s reproduces=%s" % (lid, self.replay["model"], w is not None))
+            if w is None:
+                self.holds(lid, note="(recorded witness does not reproduce on the current tree)")
+                return None
+            self.nontrivial += 1
+            self.violated(lid, w[0], w[1], dict(w[2], engine=solver, model=self.replay["model"]))
+            return self.replay["model"]
         r = smt_run.solve(query, get=get, solver=solver, timeout=timeout)
         self.queries += 1
         self.solver_time += r["time_s"]
@@ -339,8 +376,9 @@ class Run:
         ev = {"property_id": self.prop, "tier": self.tier, "seed": self.seed, "level": level, "coverage": cov,
               "assumptions": self.assumptions, "wall_s": wall, "violations": len(self.violations)}
         os.makedirs(os.path.join(VERIF, "evidence"), exist_ok=True)
-        with open(os.path.join(VERIF, "evidence", self.prop + ".json"), "w") as f:
-            json.dump(ev, f, indent=1, ensure_ascii=False)
+        if self.replay is None:      # a replay run does not describe a check run: leave the evidence file alone
+            with open(os.path.join(VERIF, "evidence", self.prop + ".json"), "w") as f:
+                json.dump(ev, f, indent=1, ensure_ascii=False)
         n_h = sum(1 for o in self.outcomes if o.status == "holds")
         log("SUMMARY property=%s tier=%s lemmas: %d hold, %d known, %d violated, %d inconclusive; %d queries, solver %.1fs, wall %.1fs" % (
             self.prop, self.tier, n_h, len(self.known_hits), len(self.violations), len(self.inconclusive), self.queries, self.solver_time, wall))
@@ -364,9 +402,11 @@ def main(prop, build_fn):
     run = Run(prop, tier, seed)
     try:
         if a.replay:
-            payload = json.load(open(a.replay))
-            run.replay_only = payload
+            run.replay = json.load(open(a.replay))
+            log("REPLAY file=%s lemma=%s" % (a.replay, run.replay.get("lemma")))
         build_fn(run)
+        if a.replay and not run.replayed:
+            log("REPLAY: lemma %s is discharged by a custom loop; re-run `bin/check %s` to re-derive it from the current tree" % (run.replay.get("lemma"), prop))
     except slicer.SliceError as e:
         log("ENCODING-FAILED property=%s: %s" % (prop, e))
         run.inconclusive_("encoding", "slice not found: %s" % e)
